@@ -1179,6 +1179,7 @@ static void c18_case(vf::Rng& r) {
   if (back2.HasParseError() || !(back2 == pa) || !(pa == back2) || !(back2 == sa)) vf::violation("parse-of-dump-not-equal", "malloc document");
 }
 
+#ifndef VF_FUZZ_TARGET
 int main(int argc, char** argv) {
   for (int i = 1; i + 1 < argc; i++)
     if (std::string(argv[i]) == "--prop") g_prop = argv[i + 1];
@@ -1199,3 +1200,4 @@ int main(int argc, char** argv) {
   }
   return vf::run(argc, argv, S);
 }
+#endif  // VF_FUZZ_TARGET
